@@ -868,13 +868,13 @@ def run_topo(desc, ctx):
 
 
 SUBS = [
-    Sub("floyd_warshall", run_fw, strategy=fw_cases, quick=1500, thorough=2500),
-    Sub("bellman_ford", run_bf, strategy=bf_cases, quick=1500, thorough=2500),
-    Sub("dijkstra_edges", run_dj, strategy=dj_cases, quick=1500, thorough=2500),
-    Sub("bfs_edges", run_bfs, strategy=trav_cases, quick=1500, thorough=2500),
-    Sub("dfs_edges", run_dfs, strategy=trav_cases, quick=1500, thorough=2500),
-    Sub("kruskal", run_mst, strategy=mst_cases, quick=1500, thorough=2500),
-    Sub("pagerank_edges", run_pr, strategy=pr_cases, quick=1500, thorough=2500),
-    Sub("strongly_connected_components_edges", run_scc, strategy=scc_cases, quick=1500, thorough=2500),
-    Sub("topological_sort_edges", run_topo, strategy=topo_cases, quick=1500, thorough=2500),
+    Sub("floyd_warshall", run_fw, strategy=fw_cases, quick=1500, thorough=2500, workers_quick=2),
+    Sub("bellman_ford", run_bf, strategy=bf_cases, quick=1500, thorough=2500, workers_quick=2),
+    Sub("dijkstra_edges", run_dj, strategy=dj_cases, quick=1500, thorough=2500, workers_quick=2),
+    Sub("bfs_edges", run_bfs, strategy=trav_cases, quick=1500, thorough=2500, workers_quick=2),
+    Sub("dfs_edges", run_dfs, strategy=trav_cases, quick=1500, thorough=2500, workers_quick=2),
+    Sub("kruskal", run_mst, strategy=mst_cases, quick=1500, thorough=2500, workers_quick=2),
+    Sub("pagerank_edges", run_pr, strategy=pr_cases, quick=1500, thorough=2500, workers_quick=2),
+    Sub("strongly_connected_components_edges", run_scc, strategy=scc_cases, quick=1500, thorough=2500, workers_quick=2),
+    Sub("topological_sort_edges", run_topo, strategy=topo_cases, quick=1500, thorough=2500, workers_quick=2),
 ]
